@@ -95,6 +95,12 @@ CYCLIC_TTL = {
 }
 
 
+def combine(a, b):
+    stats = dict(a[0])
+    stats.update(b[0])
+    return stats, a[1] + b[1], a[2] + b[2]
+
+
 def cyclic_structures(run):
     """path structures and node expressions that refer to themselves: validate() must end with a verdict or a documented
     failure (never RecursionError, never a hang), in every mode that walks them"""
@@ -118,6 +124,31 @@ def cyclic_structures(run):
             if o[0] == "err" and o[1].startswith("RAW:"):
                 fails.append({"what": "a self-referring %s ends in %s instead of a verdict or a documented failure" % (name.split(":")[0], o[1][4:]),
                               "case": name, "options": opts, "shapes_ttl": ttl, "detail": o[2][:300]})
+    return stats, fails, []
+
+
+def selected_runs(run, cases, rng, tier):
+    """the same recursive / chained shapes graphs with a selection (use_shapes, focus_nodes): the selected shapes are loaded by
+    a walk of their own over the shape references - it must end as well (a verdict or a documented failure)"""
+    stats, fails = {"selected_run_cases": 0, "selected_run_outcomes": {}}, []
+    pool = [c for c in cases if c["kind"] in ("recursive", "chain")]
+    for c in rng.sample(pool, min(len(pool), 80 if tier == "quick" else 800)):
+        named = [s_["id"] for s_ in c["shapes"] if isinstance(s_["id"], URIRef)]
+        if not named:
+            continue
+        opts = dict(c["opts"], use_shapes=[str(x) for x in rng.sample(named, rng.randint(1, min(2, len(named))))])
+        if rng.random() < 0.4:
+            iris = sorted({x for x in c["data"].subjects() if isinstance(x, URIRef)})
+            if iris:
+                opts["focus_nodes"] = [str(rng.choice(iris))]
+        o = run(c["data"], c["sg"], **opts)
+        stats["selected_run_cases"] += 1
+        k = o[1] if o[0] == "err" else "verdict"
+        stats["selected_run_outcomes"][k] = stats["selected_run_outcomes"].get(k, 0) + 1
+        if o[0] == "err" and o[1].startswith("RAW:"):
+            d = S.describe_case(c["sg"], c["data"], opts, o)
+            d["what"] = "validating selected shapes of a %s shapes graph ends in %s instead of a verdict or a documented failure" % (c["kind"], o[1][4:])
+            fails.append(d)
     return stats, fails, []
 
 
@@ -145,9 +176,9 @@ def main(tier, seed, replay=None):
     try:
         return EC.standard_main(
             PROP, ["Props/C19.v"], tier, seed, cases,
-            rule="case = (a) chain of n shapes through mixed node/property/not/or/and/xone/qualified links with max_validation_depth m in 1..30 and n around m and up to 2m; (a') the same chains with m in 2..6 over wide data (2-4 values per node and predicate); (b) random shapes graphs with arbitrary cyclic references (self-loops, mutual recursion) over cyclic data with m in 1..6; every run under a 30 s wall-clock limit; (c) self-referring path structures (inverse / star / alternative / sequence rings) and node expressions (filterShape, union, intersection over themselves) in default, advanced and sparql mode: a verdict or a documented failure, never RecursionError; outcome (report or 'too deep' failure) compared with the model, which contains the depth test and recursion_triggers",
+            rule="case = (a) chain of n shapes through mixed node/property/not/or/and/xone/qualified links with max_validation_depth m in 1..30 and n around m and up to 2m; (a') the same chains with m in 2..6 over wide data (2-4 values per node and predicate); (b) random shapes graphs with arbitrary cyclic references (self-loops, mutual recursion) over cyclic data with m in 1..6; every run under a 30 s wall-clock limit; (c) self-referring path structures (inverse / star / alternative / sequence rings) and node expressions (filterShape, union, intersection over themselves) in default, advanced and sparql mode: a verdict or a documented failure, never RecursionError; (d) recursive and chained shapes graphs of (a)/(b) validated with use_shapes (and focus_nodes) selections: a verdict or a documented failure; outcome (report or 'too deep' failure) compared with the model, which contains the depth test and recursion_triggers",
             what="outcome differs from the model of depth limiting / recursion back-out (Props.C19)",
-            extra_checks=lambda: cyclic_structures(timed),
+            extra_checks=lambda: combine(cyclic_structures(timed), selected_runs(timed, cases, F.rng_for(seed, PROP + "sel"), tier)),
         )
     finally:
         S.run_validate = orig
